@@ -743,7 +743,7 @@ func genContract(g *genCtx, c *Contract, out *strings.Builder) error {
 			continue
 		}
 		if strings.HasSuffix(m, "[*]") {
-			fmt.Fprintf(out, "\tverifrt.ModifiesElems(%s)\n", strings.TrimSuffix(m, "[*]"))
+			fmt.Fprintf(out, "\tverifrt.ModifiesContents(%s)\n", strings.TrimSuffix(m, "[*]"))
 		} else if strings.HasPrefix(m, "*") {
 			fmt.Fprintf(out, "\tverifrt.Modifies(%s)\n", strings.TrimPrefix(m, "*"))
 		} else {
